@@ -75,9 +75,17 @@ def run(chk):
             for k in KINDS:
                 cases.append((k, w + suf))
     lines = [lib.req("nameok", k, s) for k, s in cases]
-    impl, model = lib.both(lines)
-    spec = lib.run_lines(lib.model_driver(), [lib.req("nameok", SPEC_OF[k], s) for k, s in cases])
-    lax = lib.run_lines(lib.model_driver(), [lib.req("nameok", "lax-" + k, s) for k, s in cases])
+    # (the thorough enumeration is several hundred thousand requests per stream: no stream may be cut short by a time limit,
+    # an answer that is missing would be read as a refusal)
+    big = 14400
+    impl, model = lib.both(lines, timeout=big)
+    spec = lib.run_lines(lib.model_driver(), [lib.req("nameok", SPEC_OF[k], s) for k, s in cases], timeout=big)
+    lax = lib.run_lines(lib.model_driver(), [lib.req("nameok", "lax-" + k, s) for k, s in cases], timeout=big)
+    for nm, stream in (("implementation", impl), ("model", model), ("specification", spec), ("lax", lax)):
+        if len(stream) != len(cases) or any(x not in ("0", "1") for x in stream):
+            bad = next((i for i, x in enumerate(stream) if x not in ("0", "1")), len(stream))
+            raise SystemExit("the %s stream of the name enumeration is incomplete (request %d of %d: %r)"
+                             % (nm, bad, len(cases), stream[bad] if bad < len(stream) else None))
     findings = {f["id"]: f for f in lib.load_findings("C18") if f["kind"] == "known"}
     t_dis = []
     m_fail = []
